@@ -405,3 +405,7 @@ w("C19", "group keys unwrapped without a tuple test again (returned mapping)", B
   "                (k[0] if isinstance(k, tuple) and len(k) == 1 else k): v\n", "                (k[0] if len(k) == 1 else k): v\n")
 w("C19", "group keys unwrapped without a tuple test again (valid keys)", BP + "checks.py",
   "            k[0] if isinstance(k, tuple) and len(k) == 1 else k\n            for k, _ in groupby_obj", "            k[0] if len(k) == 1 else k\n            for k, _ in groupby_obj")
+w("C09", "numpy default number instance registered for every width again", "pandera/engines/numpy_engine.py",
+  "                getattr(dtypes, f\"{pandera_name}{bit_width}\")(),\n            }\n", "                getattr(dtypes, f\"{pandera_name}{bit_width}\")(),\n                getattr(dtypes, pandera_name)(),\n            }\n")
+w("C09", "pandas default number class registered for every width", "pandera/engines/pandas_engine.py",
+  "            getattr(dtypes, f\"{pandera_name}{bit_width}\")(),\n        }\n\n        if np_dtype == default_pd_dtype:", "            getattr(dtypes, f\"{pandera_name}{bit_width}\")(),\n            getattr(dtypes, pandera_name),\n        }\n\n        if np_dtype == default_pd_dtype:")
